@@ -20,6 +20,10 @@ pub const A_CLAIM: u32 = 6; // (kept for the catalogue; folded into A_PUBLISH)
 
 pub static mut ENV_PER_POINT: usize = 1;
 pub static mut G_ADDING_STREAM: bool = false;
+/// my consumer handle shares its stream (set by the harness): the pin protocol applies to me
+pub static mut G_MY_SHARED: bool = false;
+/// serial of the payload instance the sender under proof is publishing (usize::MAX = not a sender harness)
+pub static mut G_MY_SEND_SER: usize = usize::MAX;
 pub static mut G_PUBLISHED_POS: usize = 0;
 pub static mut G_ME_SENDER: bool = false; // the function under proof runs on a sender handle
 pub static mut G_MY_STREAM: usize = usize::MAX; // index of the stream my consumer handle reads (or MAX)
@@ -71,6 +75,8 @@ unsafe fn env_reset<RW: QueueRW<Pay>>(w: &World<RW>, mpmc: bool, budget: usize, 
     ENV_TAKEN = [0; 8];
     ENV_PER_POINT = 1;
     G_ME_SENDER = false;
+    G_MY_SHARED = false;
+    G_MY_SEND_SER = usize::MAX;
     G_MY_STREAM = usize::MAX;
     G_MY_CLAIMS = 0;
     G_MY_COMMITS = 0;
@@ -121,6 +127,17 @@ unsafe fn env_protocol<RW: QueueRW<Pay>>(q: *const MultiQueue<RW, Pay>, kind: u8
     }
     let q = &*q;
     let n = q.capacity as usize;
+    if kind == K_USER && G_MY_SHARED && RW::do_drop() {
+        // I am a consumer of a SHARED broadcast stream and I am inside the payload's Clone right now:
+        // the slot I am reading must be protected by a pin of mine that passed the position re-check
+        let mut s = 0;
+        while s < n {
+            if addr == &(*q.data.add(s)).val as *const Pay as usize {
+                assert!(G_MY_PIN[s] > 0 && G_MY_VALID[s], "C04: a shared broadcast consumer reads the value without holding a validated pin on its slot");
+            }
+            s += 1;
+        }
+    }
     let mut turn = 0;
     while turn < ENV_PER_POINT {
         if !(ENV_BUDGET > 0 && rt::oracle_bool()) {
@@ -452,6 +469,7 @@ unsafe fn guarantee<RW: QueueRW<Pay>>(q: *const MultiQueue<RW, Pay>, kind: u8, a
         if addr == &(*q.data.add(s)).wraps as *const AtomicUsize as usize {
             // Publish by me: only the slot of my claim, only with its count
             assert!(G_MY_CLAIMS > 0 && s == G_MY_CLAIM_COUNT & (n - 1) && new == G_MY_CLAIM_COUNT, "C01/C02: tag store for a slot/count this call did not claim");
+            assert!(G_MY_SEND_SER == usize::MAX || (*q.data.add(s)).val.ser == G_MY_SEND_SER, "C04: the tag is published before the value is in place (a consumer could observe a slot that is being written)");
             G_PUB_COUNT[s] = new;
             G_PUB_VAL[s] = (*q.data.add(s)).val.val;
             G_MY_TAG_STORES += 1;
